@@ -212,3 +212,32 @@ def run(ck):
         wit39 = wit39 or _mpb(rsk, bid, lambda e, s_=set(rot_calls): e in s_ or any(rsk.is_in(x, e) for x in s_), lp39[0])
     ck.ob('C39.sched', 'C39.sched/every-session-offered', wit39 is None, rsk.loc(lp39[0]),
           'rotate_session_keys calls rotate_if_needed for every known peer on every pass (no peer is skipped, e.g. for having no live connection)', wit39)
+
+    # ---- every message is sent under the key manager's current key: send_secure re-installs it in the transport before it sends ----------------
+    from sa.paths import must_precede as _mp39
+    ss = PN.fn(N + 'send_secure')
+    ck.touch(ss)
+    snd = [i for i in ss.walk() if (ss.nodes[i].get('callee') or '').endswith('SessionManager::send')]
+    reg = [i for i in ss.walk() if (ss.nodes[i].get('callee') or '').endswith('SessionManager::register_peer_key')]
+    late39 = _mp39(ss, snd, lambda e, s_=set(reg): e in s_ or any(ss.is_in(x, e) for x in s_)) if snd and reg else [(None, ['send or register_peer_key call missing'])]
+    ck.ob('C39.coord', 'C39.coord/send-resyncs-transport-key', not late39, ss.loc(snd[0]) if snd else ss.loc(),
+          'send_secure hands key_manager_.current_key(peer) to sessions_.register_peer_key before every sessions_.send (a session dialled from a key snapshot '
+          'taken before a rotation is repaired by the next message)', late39[0][1] if late39 else None)
+
+    # ---- a session key is rotated from the tick only: nobody calls rotate_session_key (the one-sided, out-of-schedule rotation) from inside the node
+    callers39 = sorted({f.name for f in PN.fns for i in f.walk() if (f.nodes[i].get('callee') or '') == N + 'rotate_session_key'})
+    ck.ob('C39.sched', 'C39.sched/no-internal-caller-of-rotate_session_key', not callers39, '',
+          'Node::rotate_session_key (public, unscheduled) is not called by the node itself — e.g. "before dialling" — so rotations happen on the shared '
+          'tick schedule only (internal callers: %s)' % (callers39 or 'none'))
+
+    # ---- installing a key overwrites the transport's entry: register_peer_key assigns keys_[id], it never emplace()s (which keeps the old key) --------
+    PSM = ck.prog(['src/network/SessionManager.cpp'])
+    rpk = PSM.fn('ephemeralnet::network::SessionManager::register_peer_key')
+    ck.touch(rpk)
+    keep_old = [i for i in rpk.walk() if rpk.nodes[i]['k'] == 'CXXMemberCallExpr' and (rpk.nodes[i].get('callee') or '').split('::')[-1] in ('emplace', 'try_emplace', 'insert') and
+                rpk.receiver(i) is not None and (rpk.nodes[rpk.strip(rpk.receiver(i))].get('m') or '').endswith('SessionManager::keys_')]
+    assign = [i for i in rpk.walk() if rpk.nodes[i]['k'] == 'CXXOperatorCallExpr' and rpk.nodes[i].get('op') == '=' and
+              any((rpk.nodes[j].get('m') or '').endswith('SessionManager::keys_') for j in rpk.walk(rpk.kids(i)[1]))] + \
+        [i for i in rpk.walk() if (rpk.nodes[i].get('callee') or '').endswith('::insert_or_assign')]
+    ck.ob('C39.coord', 'C39.coord/register-overwrites-key', bool(assign) and not keep_old, rpk.loc(keep_old[0]) if keep_old else rpk.loc(),
+          'SessionManager::register_peer_key replaces the stored key (keys_[id] = key / insert_or_assign): emplace / insert would keep the first key for ever')
